@@ -660,6 +660,11 @@ class Compiler:
     if isinstance(t, ast.Name):
       self.bind(t.id, val)
     elif isinstance(t, ast.Tuple):
+      # a record (namedtuple) unpacks into its fields, in field order
+      if isinstance(val, SRec) and len(val.rc.fields) == len(t.elts):
+        val = ST([self.lift(val.rc.records[val.rid - 1][f]) for f in val.rc.fields])
+      elif isinstance(val, SE) and isinstance(val.typ, tuple) and val.typ[0] == "rec" and len(val.typ[1].fields) == len(t.elts):
+        val = ST([self.rec_field(val, f) for f in val.typ[1].fields])
       if not isinstance(val, ST) or len(val.items) != len(t.elts):
         raise TranslationError("cannot unpack %r" % (val,))
       for x, v in zip(t.elts, val.items):
@@ -1571,7 +1576,36 @@ class Compiler:
       return SSnap(iv, cells, self.sc.elem_typ.get(lists.name, "int"))
     raise TranslationError("snapshot of %r" % (src,))
 
+  def next_of_generator(self, e):
+    """next(<elt> for <target> in <iter> if <cond>...)[, default]: lowered to the loop it abbreviates - the first element that passes the
+    conditions; StopIteration (or the default) when there is none"""
+    g = e.args[0]
+    if len(g.generators) != 1 or g.generators[0].is_async:
+      raise TranslationError("next() of a generator expression with several for clauses")
+    gen = g.generators[0]
+    self.ntemp += 1
+    tmp, found = "_vf_next_value_%d" % self.ntemp, "_vf_next_found_%d" % self.ntemp
+    has_default = len(e.args) > 1
+
+    def name(n, store=False):
+      return ast.Name(id=n, ctx=ast.Store() if store else ast.Load())
+    test = gen.ifs[0] if len(gen.ifs) == 1 else (ast.BoolOp(op=ast.And(), values=list(gen.ifs)) if gen.ifs else ast.Constant(value=True))
+    body = [ast.If(test=test, body=[ast.Assign(targets=[name(tmp, True)], value=g.elt), ast.Assign(targets=[name(found, True)], value=ast.Constant(value=True)),
+                                    ast.Break()], orelse=[])]
+    stmts = [ast.Assign(targets=[name(tmp, True)], value=e.args[1] if has_default else ast.Constant(value=None)),
+             ast.Assign(targets=[name(found, True)], value=ast.Constant(value=False)),
+             ast.For(target=gen.target, iter=gen.iter, body=body, orelse=[])]
+    if not has_default:
+      stmts.append(ast.If(test=ast.UnaryOp(op=ast.Not(), operand=name(found)), body=[ast.Raise(exc=name("StopIteration"), cause=None)], orelse=[]))
+    for st in stmts:
+      ast.copy_location(st, e)
+      ast.fix_missing_locations(st)
+    self.block(stmts)
+    return self.expr(name(tmp))
+
   def e_Call(self, e):
+    if isinstance(e.func, ast.Name) and e.func.id == "next" and e.args and isinstance(e.args[0], ast.GeneratorExp) and not e.keywords:
+      return self.next_of_generator(e)
     f = self.expr(e.func)
     args = [self.expr(a) for a in e.args]
     kwargs = {}
